@@ -217,7 +217,7 @@ def mk(kind, ev, name):
     return f"marker_ok_o({ev}, {name}.index)" if kind == "o" else f"marker_ok({ev}, {name}.index)"
 
 
-def build_items(mode="partial", fuel=None):
+def build_items(mode="partial", fuel=None, pratt=False):
     fuel = fuel or {}
     total = mode == "total"
     FC, FIN, FLC = fuel.get("C", {}), fuel.get("IN", {}), fuel.get("LC", {})
@@ -267,9 +267,11 @@ def build_items(mode="partial", fuel=None):
             ens.append("stalled(*old(p)) ==> mu(*final(p)) < mu(*old(p)),")
         if name in EXTRA_ENS:
             ens.append(EXTRA_ENS[name])
+        if pratt and name in PRATT_ENS:
+            ens.append(PRATT_ENS[name])
         contract = "requires " + ", ".join(req) + ",\nensures " + "\n".join(ens) + f"\ndecreases mu(*old(p)), {rank[name]}int,"
         loops = {}
-        ghost = [("@entry", "", "proof { lemma_mu_nonneg(*p); }")] + list(GHOST.get(name, []))
+        ghost = [("@entry", "", "proof { lemma_mu_nonneg(*p); }")] + list(GHOST.get(name, [])) + (list(PRATT_GHOST.get(name, [])) if pratt else [])
         for k, (s, b, kw) in enumerate(find_loops(fn["mbody"])):
             ghost.append((f"@loop:{k}:body", "", "proof { lemma_mu_nonneg(*p); }"))
             ghost.append((f"@loop:{k}:before", "", f"let ghost pl{k} = *p;"))
@@ -277,9 +279,11 @@ def build_items(mode="partial", fuel=None):
             inv = LOOP_INV.replace("{EX}", ex) + " ".join(mk(kd, "p.events@", m) + "," for (m, kd) in mks if (name, k, m) not in LOOP_DROP)
             inv += f" mu(*p) <= mu(pl{k}),"
             inv += LOOP_EXTRA.get((name, k), "")
-            loops[k] = f"invariant {inv}\ndecreases mu(*p),"
+            le = PRATT_LOOP_ENS.get((name, k)) if pratt else None
+            loops[k] = f"invariant {inv}\n" + (f"ensures {le}\n" if le else "") + "decreases mu(*p),"
         items.append(Fn(file=fn["file"], name=name, ret=rname, contract=contract, loops=loops,
-                        attrs=ATTRS.get(name, ""),
+                        attrs=ATTRS.get(name, ""), contract_only=(pratt and name not in PRATT_ENS),
+                        rewrites=(PRATT_REWRITES.get(name, []) if pratt else []),
                         rules=(["T", "fmtmsg"] + ([] if total else ["assert_partial", "unreachable_partial"])
                                + [("strip", "super::pattern::"), ("strip", "pattern::"), ("strip", "stmt::")]),
                         ghost=ghost,
@@ -295,6 +299,16 @@ ATTRS = {"atom": BIG, "extern_decl_with_marker": BIG, "type_atom": BIG, "simple_
 EXTRA_ENS = {
     "looks_like_struct_literal": "r ==> next_kind(*final(p)) == TokenKind::LBrace,",
     "file": "at_eof(*final(p)), balanced(final(p).events@),",
+}
+# C11: the Pratt loops stop only in front of a token that is not an operator binding at least as tightly as min_bp
+# (together with the guard assertions below and the table lemmas of U-BP this is the precedence/associativity discipline)
+PRATT_STOP = "at_eof(*{P}) || {P}.fuel == 0 || !pratt_continues(next_kind(*{P}), min_bp)"
+TYPE_STOP = "at_eof(*{P}) || {P}.fuel == 0 || !type_continues(next_kind(*{P}), min_bp)"
+PRATT_ENS = {"expr_bp": "r is Some ==> (" + PRATT_STOP.replace("{P}", "final(p)") + "),",
+             "type_expr_bp": "r is Some ==> (" + TYPE_STOP.replace("{P}", "final(p)") + "),"}
+PRATT_LOOP_ENS = {
+    ("expr_bp", 0): PRATT_STOP.replace("{P}", "p") + ",",
+    ("type_expr_bp", 0): TYPE_STOP.replace("{P}", "p") + ",",
 }
 EXTRA_REQ = {
     "file": "old(p).events@.len() == 0",
@@ -317,6 +331,30 @@ GHOST = {
     "type_atom": [("@entry", "", "let ghost p0 = *p;"),
                   ("p.events.pop()", "line-before", "let ghost s2 = *p;"),
                   ("p.events.pop()", "line-after", "proof { lemma_pop_open(p0, s2, *p); }")],
+}
+
+# C11 guard assertions, attached to the ACTUAL argument of the recursive call (regex site rewrites, optional: a call written
+# differently simply loses its guard): an operator is consumed only if it binds at least as tightly as min_bp, and its right
+# operand is parsed with exactly that operator's right binding power (prefix operand: the prefix operator's power).
+# The argument expression is evaluated once into __rb and passed on unchanged.
+def _guard(asserts):
+    return r"\1{ let __rb: u8 = \2; proof { " + asserts + r" } __rb }\3"
+
+
+PRATT_REWRITES = {
+    "expr_bp": [
+        (re.compile(r'(expect_expr_bp_with_message\(\s*p,\s*)([^,]+?)(,\s*"expected a right-hand side)'),
+         _guard("assert(pratt_continues(op, min_bp)); assert(infix_binding_power_spec(op) is Some && (infix_binding_power_spec(op)->0).1 == __rb);"), "*"),
+        (re.compile(r'(expect_expr_bp_with_message\(\s*p,\s*)([^,]+?)(,\s*"expected an operand)'),
+         _guard("assert(prefix_binding_power_spec(next_kind(*old(p))) == Some(__rb));"), "*"),
+    ],
+    "type_expr_bp": [
+        (re.compile(r'(if type_expr_bp\(\s*p,\s*)([^)]+?)(\)\.is_none\(\))'),
+         _guard("assert(type_continues(op, min_bp)); assert(type_infix_binding_power_spec(op) is Some && (type_infix_binding_power_spec(op)->0).1 == __rb);"), "*"),
+    ],
+}
+PRATT_GHOST = {
+    "expr_bp": [("?lhs = m.completed(p, MySyntaxKind::EXPR_CALL)", "line-before", "assert(pratt_continues(op, min_bp));")],
 }
 
 GRAMMAR_LEMMAS = Raw(text="""
@@ -354,6 +392,17 @@ pub proof fn lemma_file_balanced(eb: Seq<Event>, ea: Seq<Event>)
         assert(pd(eb, i) >= 0);
         assert(pd(ea, i) == pd(eb, i) + 1);
     }
+}
+
+// ---- C11: Pratt discipline ----
+pub open spec fn pratt_continues(op: TokenKind, min_bp: u8) -> bool {
+    match postfix_binding_power_spec(op) {
+        Some((l, _)) => l >= min_bp,
+        None => match infix_binding_power_spec(op) { Some((l, _)) => l >= min_bp, None => false },
+    }
+}
+pub open spec fn type_continues(op: TokenKind, min_bp: u8) -> bool {
+    match type_infix_binding_power_spec(op) { Some((l, _)) => l >= min_bp, None => false }
 }
 
 pub proof fn lemma_no_eof(s: Seq<TokenKind>)
